@@ -46,6 +46,26 @@ def decode(e, shared=None):
     return e
 
 
+class _ListSub(list):
+    pass
+
+
+def to_sub(v, mode):
+    """the same data in containers that are subclasses of dict / list (OrderedDict from json.loads(object_pairs_hook=...),
+    defaultdict, a list subclass): still dicts and lists of the same items"""
+    import collections
+    if isinstance(v, dict):
+        items = [(k, to_sub(x, mode)) for k, x in v.items()]
+        if mode == 1:
+            return collections.OrderedDict(items)
+        d = collections.defaultdict(list)
+        d.update(items)
+        return d
+    if isinstance(v, list):
+        return _ListSub(to_sub(x, mode) for x in v)
+    return v
+
+
 def strict_eq(a, b):
     if type(a) is not type(b):
         return False
@@ -128,6 +148,10 @@ def evaluate(case):
     if case.get("share"):
         info.add("equal_substructures_are_one_object")
     scan(value, 0, info)
+    plain_value = value
+    if case.get("subcls"):
+        value = to_sub(value, case["subcls"])
+        info.add("containers_are_dict_and_list_subclasses")
     try:
         # one long-lived printer per mode (the way the package itself uses pp / PPWrap._PPRINTER); the same
         # value is first rendered with the default colours, then without: the no-colour text must not care
@@ -221,7 +245,7 @@ def evaluate(case):
         f.append(("output_does_not_parse_" + mode, f"{type(e).__name__}: {e}; text={text[:300]!r}"))
         back = None
     else:
-        if not strict_eq(back, value):
+        if not strict_eq(back, plain_value):
             f.append(("readback_differs_" + mode, f"text={text[:400]!r}"))
         elif mode == "py":
             if not key_orders_ok(back):
@@ -362,7 +386,8 @@ def st_case():
                 lambda c: (st.just([]) | st.just([]) | st.lists(st.sampled_from(
                     ["repr", "len", "eq", "add", "radd", "copy_extended", "slice", "format", "fixed_len"]), min_size=1, max_size=3)
                 ).map(lambda o: dict(c, observe=o))).flatmap(
-                lambda c: st.sampled_from([0, 0, 0, 1, 2]).map(lambda z: dict(c, lazy=z))))
+                lambda c: st.sampled_from([0, 0, 0, 1, 2]).map(lambda z: dict(c, lazy=z))).flatmap(
+                lambda c: st.sampled_from([0, 0, 0, 0, 1, 2]).map(lambda z: dict(c, subcls=z))))
     return st.sampled_from(["json", "py"]).flatmap(for_mode)
 
 
